@@ -19,6 +19,8 @@ def write(pid, mod, tier, seed, merged, wall, known_hits, n_unknown, reasons):
         "inconclusive_reasons": reasons[:10],
         "tree": env.REPO,
     }
+    if getattr(mod, "ENUMERATED", {}).get(tier):
+        cov["enumerated_sublattices"] = mod.ENUMERATED[tier]    # complete within themselves, but chosen by the harness
     if getattr(mod, "EXHAUSTIVE", {}).get(tier):
         cov["exhaustive"] = True
         cov["exhaustive_subspaces"] = mod.EXHAUSTIVE[tier]
